@@ -12,7 +12,7 @@ Use with:
     git mergetool [<commit> [<commit>]]
 """
 import sys
-from subprocess import check_call, CalledProcessError
+from subprocess import check_call, check_output, CalledProcessError
 
 from nbdime.webapp import nbmergetool
 from nbdime.args import add_generic_args, add_git_config_subcommand, ConfigBackedParser
@@ -41,10 +41,18 @@ def disable(scope=None, _=None):
     if scope:
         cmd.append('--%s' % scope)
     try:
-        check_call(cmd + ['--unset', 'merge.tool'])
+        tool = check_output(cmd + ['merge.tool']).decode('utf8', 'replace').strip()
     except CalledProcessError:
-        # already unset
+        # not set
         pass
+    else:
+        # Only unset the default tool if it points at nbdime
+        if tool == 'nbdime':
+            try:
+                check_call(cmd + ['--unset', 'merge.tool'])
+            except CalledProcessError:
+                # already unset
+                pass
 
 
 def main(args=None):
